@@ -33,7 +33,7 @@ META = {
                      'generated-graph-orders': 10000, 'labels-compared': 5000000},
     },
 }
-SECONDS = {'quick': 60, 'thorough': 600}
+SECONDS = {'quick': 300, 'thorough': 600}
 RANDOM = {'quick': 2400, 'thorough': 400000}
 GENERATED = {'quick': 720, 'thorough': 40000}
 
